@@ -90,7 +90,7 @@ BASE_OF = {"clone": "star4", "unpickled": "chain3", "clone2": "chain3", "cloned"
 KINDS = {"Molecule": Molecule, "Structure": Structure}
 
 # constructor start states: every form of `other` x override keywords (none / each alone / all)
-CTOR_FORMS = ["none", "atoms", "elements", "Promolecule", "Connectivity", "CartesianGeometry", "Structure", "Molecule", "Conformer"]
+CTOR_FORMS = ["none", "atoms", "atoms-tuple", "elements", "Promolecule", "Connectivity", "CartesianGeometry", "Structure", "Molecule", "Conformer"]
 OVR_KEYS = ["coords", "atomic_charges", "charge", "mult", "name"]
 CT_ELEMS, CT_BONDS = ["C", "O", "H"], [(0, 1), (1, 2)]
 
@@ -99,6 +99,32 @@ def ctor_starts(kind):
     keys = [k for k in OVR_KEYS if not (kind == "Structure" and k == "atomic_charges")]
     combos = [()] + [(k,) for k in keys] + [tuple(keys)]
     return [f"ctor|{form}|{'+'.join(c) or '-'}" for form in CTOR_FORMS for c in combos]
+
+
+# what the caller may do with ITS OWN list after it handed it to a constructor
+CALLER_OPS = ["append", "pop", "reverse", "sort", "clear", "setitem"]
+
+
+def caller_op(lst, what, keep):
+    if what == "append":
+        a = Atom("N", label="callers")
+        keep.append(a)
+        lst.append(a)
+    elif what == "pop":
+        if lst:
+            keep.append(lst.pop())
+    elif what == "reverse":
+        lst.reverse()
+    elif what == "sort":
+        lst.sort(key=lambda a: a.element.z)
+    elif what == "clear":
+        keep.extend(lst)
+        lst.clear()
+    elif what == "setitem":
+        if lst:
+            a = Atom("S", label="callers")
+            keep += [a, lst[0]]
+            lst[0] = a
 
 
 # argument kinds of the operations that take an iterable of bonds
@@ -121,7 +147,7 @@ class Rec:
 
 
 class MState:
-    __slots__ = ("kind", "start", "mol", "atoms", "ident", "order", "bonds", "hist", "keep", "nmut", "view", "vkind", "confs", "vbonds", "vorder", "cache", "partners", "vxyz", "vq", "meta")
+    __slots__ = ("kind", "start", "mol", "atoms", "ident", "order", "bonds", "hist", "keep", "nmut", "view", "vkind", "confs", "vbonds", "vorder", "cache", "partners", "vxyz", "vq", "meta", "caller")
 
     def __init__(self):
         self.kind = None
@@ -144,6 +170,7 @@ class MState:
         self.vxyz = None  # system V: (conformer, aid) -> coordinate the model expects
         self.vq = None  # system V: (conformer, aid) -> charge
         self.meta = None  # constructor start states: expected name / charge / mult
+        self.caller = None  # the caller's own list of atoms that was handed to the constructor
 
 
 def exc_name(e):
@@ -227,6 +254,8 @@ class MSys:
             return "del_bond"
         if k == "delbond_bad":
             return "del_bond(invalid)"
+        if k == "caller":
+            return "caller-list-edit"
         if k == "hold":
             return f"hold-view({op[1]})"
         if k in ("v_translate", "v_setcoords", "v_transform"):
@@ -348,7 +377,9 @@ class MSys:
         if form == "none":
             return None, None
         if form == "atoms":
-            return atoms, atoms
+            return atoms, list(atoms)  # the caller's own list object; what it held at the call
+        if form == "atoms-tuple":
+            return tuple(atoms), list(atoms)
         if form == "elements":
             return list(CT_ELEMS), None
         if form == "Promolecule":
@@ -409,13 +440,15 @@ class MSys:
             return False
         st.mol = m
         st.keep.append(other)
+        if form == "atoms":
+            st.caller = other  # stays the CALLER's object: what the caller does with it later is not an edit of the molecule
         real = list(m.atoms)
         if len(real) != n or (same_atoms is not None and any(a is not b for a, b in zip(real, same_atoms))):
             self.viol(st, op, "wrong-atom-set", f"constructed object lists {len(real)} atoms; expected {n}" + (" (the very atoms handed in)" if same_atoms else ""))
             return False
         geometric = form in ("CartesianGeometry", "Structure", "Molecule", "Conformer")
         charged = form in ("Molecule", "Conformer")
-        has_src = form not in ("none", "atoms", "elements")
+        has_src = form not in ("none", "atoms", "atoms-tuple", "elements")
         for k, a in enumerate(real):
             if form == "none":
                 try:
@@ -637,6 +670,12 @@ class MSys:
         nb = len(st.bonds)
         ops = []
         E = self.add_elems
+        if st.caller is not None and not self.views:
+            return self._rot(self._enabled_main(st, n, nb, E) + [("caller", w) for w in CALLER_OPS])
+        return self._enabled_main(st, n, nb, E)
+
+    def _enabled_main(self, st, n, nb, E):
+        ops = []
         if self.views:
             return self._rot(self._enabled_views(st, n, nb))
         if self.core:
@@ -829,7 +868,15 @@ class MSys:
         post = None  # routine-specific contract checked after the generic bookkeeping
 
         before_ids = set(st.ident)  # python identities of the member atoms (model ids are recycled)
-        if kind == "hold":
+        if kind == "caller":
+            # an edit of the CALLER's list, not of the molecule: the model does not move
+            lst = st.caller
+            call = lambda: caller_op(lst, op[1], st.keep)
+
+            def predict():
+                pass
+
+        elif kind == "hold":
             which = op[1]
             n = len(real)
             if which == "heavy":
@@ -1249,6 +1296,8 @@ class MSys:
         ids = tuple(st.order)
         bonds = tuple((st.ident.get(id(b.a1)), st.ident.get(id(b.a2))) for b in m.bonds)
         extra = (str(m.coords.dtype), str(m.atomic_charges.dtype) if st.kind == "Molecule" else None)
+        if st.caller is not None:
+            extra = extra + (tuple(st.ident.get(id(a), "x") for a in st.caller),)
         held = None
         if self.views and st.view is not None:
             held = (st.vkind, tuple(st.ident.get(id(a), "gone") for a in st.vorder))
@@ -1607,7 +1656,10 @@ def _repro_of(hist, pose):
         if form == "none":
             other = f"n_atoms={n}"
         elif form == "atoms":
-            other = at
+            L.append(f"callers_list = {at}")
+            other = "callers_list"
+        elif form == "atoms-tuple":
+            other = "tuple(" + at + ")"
         elif form == "elements":
             other = repr(CT_ELEMS)
         else:
@@ -1710,6 +1762,9 @@ def _repro_of(hist, pose):
             L.append(f"f = Atom('F'); bl = {mk}")
             L.append(f"m.extend_bonds({wrap})" if op[1] == "extend" else f"m.append_bonds(*{wrap})")
             L.append("print('bond parents', [b.parent is m for b in m.bonds])")
+        elif k == "caller":
+            code = {"append": "callers_list.append(Atom('N'))", "pop": "callers_list.pop()", "reverse": "callers_list.reverse()", "sort": "callers_list.sort(key=lambda a: a.element.z)", "clear": "callers_list.clear()", "setitem": "callers_list[0] = Atom('S')"}[op[1]]
+            L.append(code + "   # the caller's own list, not the molecule")
         elif k == "hold":
             sel = {"heavy": "m.heavy", "idx": "m.substructure([m.n_atoms - 1, 0] if m.n_atoms > 1 else [0])", "one": "m.substructure([m.n_atoms // 2])"}[op[1]]
             L.append(f"view = {sel}   # HELD from here on")
@@ -1782,6 +1837,47 @@ def _inits_ctor(ctx):
     return good
 
 
+def _caller_matrix(ctx):
+    """every class whose constructor takes a list of atoms x {list, tuple} x every history of up to two
+    caller-side operations on that list: the object's atom sequence (by identity), its size-dependent
+    arrays and the parents of its atoms must not move"""
+    import itertools
+
+    classes = {"Promolecule": Promolecule, "Connectivity": Connectivity, "CartesianGeometry": CartesianGeometry, "Structure": Structure, "Molecule": Molecule, "ConformerEnsemble": ConformerEnsemble}
+    hists = [(a,) for a in CALLER_OPS] + list(itertools.product(CALLER_OPS, repeat=2))
+    for cname, cls in classes.items():
+        for seq in ("list", "tuple"):
+            for h in hists if seq == "list" else [()]:
+                atoms = [Atom(e, label=label_of(k)) for k, e in enumerate(CT_ELEMS)]
+                arg = atoms if seq == "list" else tuple(atoms)
+                case = {"sys": "L", "class": cname, "seq": seq, "history": [list(h)], "seed": ctx.seed}
+                ctx.count(evaluations=1, traces=1, transitions=1 + len(h), states=1)
+                try:
+                    o = cls(arg)
+                except Exception as e:
+                    ctx.violation(f"{cname}({seq}-of-atoms):constructor-raised", f"{cname}({seq} of atoms) raised {exc_name(e)}: {e}", case)
+                    continue
+                first = list(o.atoms)
+                if len(first) != len(atoms) or any(a is not b for a, b in zip(first, atoms)):
+                    ctx.violation(f"{cname}({seq}-of-atoms):wrong-atom-set", f"{cname}({seq} of atoms) does not list the atoms it was given", case)
+                    continue
+                keep = []
+                for w in h:
+                    caller_op(arg, w, keep)
+                now = list(o.atoms)
+                sym = None
+                if len(now) != len(first) or any(a is not b for a, b in zip(now, first)):
+                    sym, what = "atom-list-follows-the-callers-list", f"after the caller did {'+'.join(h)} to ITS list, {cname}.atoms lists {[a.label for a in now]} (was {[a.label for a in first]})"
+                elif any(a.parent is not o for a in now):
+                    sym, what = "atom-parent-wrong", "an atom no longer reports the object as its parent"
+                elif hasattr(o, "coords") and o.coords.shape[-2] != len(now):
+                    sym, what = "coords-rows!=atoms", f"{len(now)} atoms, coords {o.coords.shape}"
+                if sym:
+                    ctx.violation(f"{cname}(list-of-atoms);caller-list-edit:{sym}", what, case)
+                ctx.outcome(seqx._h((cname, seq, h, tuple(a.label for a in arg), len(now))))
+                ctx.nontrivial(("L", cname, seq, h))
+
+
 def _inits_V(ctx):
     sv = VSys(ctx, label="initv")
     good = []
@@ -1823,6 +1919,11 @@ def run(ctx):
         "mult= name= alone, all}; the model starts from the given value where one is given, else the source's (coordinates from a "
         "geometric source, charges from a Molecule / Conformer, bonds from a Connectivity), else the documented default (NaN row, 0.0, "
         "'unknown', 0, 1); the source and the caller's arrays stay alive as partners",
+        "the list of atoms handed to a constructor stays the CALLER's object: append / pop / reverse / sort / clear / item assignment "
+        "on it afterwards are not edits of the molecule - after each the molecule must be exactly what it was (atom sequence by "
+        "identity, rows, charges, bonds, parents).  Searched for Molecule / Structure inside the edit alphabet and, as a matrix of "
+        "histories of up to two caller-side operations, for Promolecule / Connectivity / CartesianGeometry / ConformerEnsemble too; a "
+        "tuple of atoms must be accepted like a list",
         "start states clone / clone2 / cloned / twins / unpickled keep their partner objects (source, clones, a twin built from the "
         "same coords and charges arrays, the caller's arrays) alive; after every step every partner must be exactly what it was "
         "(the property holds for every molecule alive, and the caller's arrays were never handed over)",
@@ -1919,6 +2020,9 @@ def run(ctx):
     ctx.bound["constructor_starts_depth"] = "full alphabet 1, core alphabet " + ("3" if thorough else "2")
     phase("3a_constructor_starts")
 
+    _caller_matrix(ctx)
+    phase("3a2_callers_list_matrix")
+
     # (3b) a Substructure is created first and HELD while the parent is edited
     hv = [h for h in inits if (h[0][1], h[0][2]) in (("Molecule", "chain3"), ("Molecule", "star4"), ("Structure", "mol2"))]
     d_hv = 4 if thorough else 3
@@ -1940,6 +2044,10 @@ def run(ctx):
 def replay(ctx, case):
     """re-executes the history step by step WITH the oracle on every step (the tree may have changed
     since the artefact was written); stops at the first violating step"""
+    if case.get("sys") == "L":
+        ctx.seed = case.get("seed", ctx.seed)
+        _caller_matrix(ctx)  # small and deterministic: the whole matrix is re-run, the signature decides
+        return
     hist = [tuple(o) for o in case["history"]]
     ctx.seed = case.get("seed", ctx.seed)
     sm = (VSys if case.get("sys") == "V" else MSys)(ctx, add_elems=("C", "H", "O"), label="replay")
